@@ -56,7 +56,10 @@ def make_table(spec):
             s = pd.Series(list(vals), dtype=dt, index=idx)
         series[c] = s
     df = pd.DataFrame(series, index=idx)
-    return df[cols] if cols else df
+    df = df[cols] if cols else df
+    if spec.get('index_name') is not None and not isinstance(df.index, pd.MultiIndex):
+        df.index.name = spec['index_name']       # e.g. the key column's name: set_index(key, drop=False)
+    return df
 
 
 def table_spec(cols, rows, index=None, dtypes=None):
@@ -99,6 +102,7 @@ def snapshot_df(df):
         'dtypes': [str(t) for t in df.dtypes],
         'index': [repr(i) for i in df.index],
         'index_type': type(df.index).__name__,
+        'axis_names': repr((list(df.index.names), list(df.columns.names))),
         'attrs': repr(sorted(df.attrs.items())) if hasattr(df, 'attrs') else '',
         'flags': repr(getattr(getattr(df, 'flags', None), 'allows_duplicate_labels', None)),
         'cells': [[cell(v) for v in df[c].tolist()] for c in df.columns] if len(df.columns) == len(set(df.columns)) else
@@ -112,16 +116,74 @@ def snapshot_series(s):
 
 # ----------------------------------------------------------------------------- tokenizers
 
+_USER_TOK = {}
+
+
+def user_tokenizer_class(name):
+    """User-defined tokenizers: subclasses of the stock classes that override tokenize() (the library
+    accepts any Tokenizer; code that special-cases the stock classes by isinstance must still call the
+    override)."""
+    import py_stringmatching as sm
+    if not _USER_TOK:
+        class LowerWhitespaceTokenizer(sm.WhitespaceTokenizer):
+            def tokenize(self, input_string):
+                return super(LowerWhitespaceTokenizer, self).tokenize(input_string.lower())
+
+        class StripDelimiterTokenizer(sm.DelimiterTokenizer):
+            def tokenize(self, input_string):
+                toks = super(StripDelimiterTokenizer, self).tokenize(input_string)
+                out = []
+                for t in toks:
+                    t = t.strip()
+                    if t and not (self.get_return_set() and t in out):
+                        out.append(t)
+                return out
+        class MemoWhitespaceTokenizer(sm.WhitespaceTokenizer):
+            """Keeps the token list of every string it has seen and hands out that very list again
+            (a user-level speed-up): whoever edits a list returned by tokenize() corrupts it."""
+            def tokenize(self, input_string):
+                memo = self.__dict__.setdefault('_rv_memo', {})
+                key = (input_string, self.get_return_set())
+                if key not in memo:
+                    memo[key] = super(MemoWhitespaceTokenizer, self).tokenize(input_string)
+                return memo[key]
+        _USER_TOK['memo'] = MemoWhitespaceTokenizer
+        MemoWhitespaceTokenizer.__module__ = __name__
+        MemoWhitespaceTokenizer.__qualname__ = 'MemoWhitespaceTokenizer'
+        globals()['MemoWhitespaceTokenizer'] = MemoWhitespaceTokenizer
+
+        class LowerQgramTokenizer(sm.QgramTokenizer):
+            def tokenize(self, input_string):
+                return super(LowerQgramTokenizer, self).tokenize(input_string.lower())
+        _USER_TOK['qlower'] = LowerQgramTokenizer
+        LowerQgramTokenizer.__module__ = __name__
+        LowerQgramTokenizer.__qualname__ = 'LowerQgramTokenizer'
+        globals()['LowerQgramTokenizer'] = LowerQgramTokenizer
+        for c in (LowerWhitespaceTokenizer, StripDelimiterTokenizer):
+            c.__module__ = __name__
+            c.__qualname__ = c.__name__
+            globals()[c.__name__] = c           # picklable by reference from worker processes
+        _USER_TOK.update(lower=LowerWhitespaceTokenizer, strip=StripDelimiterTokenizer)
+    return _USER_TOK[name]
+
+
+try:        # defined at import time: worker processes unpickle them by reference (rv.tables.<name>)
+    user_tokenizer_class('lower')
+except Exception:       # py_stringmatching not importable (tooling interpreter): only needed when used
+    pass
+
+
 def make_tokenizer(spec, cls_override=None):
     import py_stringmatching as sm
     kind = spec['kind']
     rs = bool(spec.get('return_set', False))
     if kind == 'ws':
-        cls, kw = sm.WhitespaceTokenizer, {}
+        cls, kw = (user_tokenizer_class(spec['user']) if spec.get('user') in ('lower', 'memo') else sm.WhitespaceTokenizer), {}
     elif kind == 'delim':
-        cls, kw = sm.DelimiterTokenizer, {'delim_set': set(spec.get('delims', [' ']))}
+        cls, kw = (user_tokenizer_class('strip') if spec.get('user') == 'strip' else sm.DelimiterTokenizer), \
+            {'delim_set': set(spec.get('delims', [' ']))}
     elif kind == 'qgram':
-        cls = sm.QgramTokenizer
+        cls = user_tokenizer_class('qlower') if spec.get('user') == 'lower' else sm.QgramTokenizer
         kw = {'qval': spec.get('q', 2), 'padding': spec.get('padding', True),
               'prefix_pad': spec.get('prefix_pad', '#'), 'suffix_pad': spec.get('suffix_pad', '$')}
     elif kind == 'alpha':
@@ -182,11 +244,19 @@ def make_filter(ssj, fspec, tok):
     kind = fspec['kind']
     cls = getattr(ssj, kind)
     how = fspec.get('threshold_np')
+    am = fspec.get('allow_missing', False)
+    via_attr = bool(fspec.get('allow_missing_via_attr'))
+    if via_attr:
+        am = not am        # built with the other value; the documented public attribute is assigned below
     if kind == 'OverlapFilter':
-        return cls(tok, np_number(fspec.get('overlap_size', 1), how), fspec.get('comp_op', '>='),
-                   fspec.get('allow_missing', False))
-    return cls(tok, fspec.get('measure_spelling') or fspec['measure'], np_number(fspec['threshold'], how),
-               fspec.get('allow_empty', True), fspec.get('allow_missing', False))
+        flt = cls(tok, np_number(fspec.get('overlap_size', 1), how), fspec.get('comp_op', '>='), am)
+    else:
+        flt = cls(tok, fspec.get('measure_spelling') or fspec['measure'], np_number(fspec['threshold'], how),
+                  fspec.get('allow_empty', True), am)
+    if via_attr:
+        flt.allow_missing = fspec.get('allow_missing', False)
+        PRESENTATION['filter_flag_assigned_after_construction'] += 1
+    return flt
 
 
 def sim_function(name):
@@ -212,6 +282,8 @@ def sim_function(name):
         return neg_len_diff
     if name == 'user_signed':
         return signed_overlap
+    if name == 'user_numdiff':
+        return num_or_date_diff
     if name == 'user_nan':
         return nan_on_equal_length
     if name == 'user_jitter':
@@ -237,6 +309,12 @@ def neg_len_diff(x, y):
 def signed_overlap(x, y):
     # takes both signs
     return len(set(x) & set(y)) - 2
+
+
+def num_or_date_diff(x, y):
+    # for match attributes that are numbers or dates (tokenizer None): |x - y|, in days for dates
+    d = x - y
+    return abs(d.days) if hasattr(d, 'days') else abs(float(d))
 
 
 def nan_on_equal_length(x, y):
@@ -435,15 +513,27 @@ def _exec_call2(ssj, call, objs=None):
         L, R = tables()
         kw = join_kwargs(call)
         fn = getattr(ssj, api)
+        pos = _positional(call)
         if api == 'edit_distance_join':
             kw.pop('allow_empty', None)
             if 'tok' in objs or call.get('tok') is not None:
                 kw['tokenizer'] = get('tok', make_tokenizer)
+            tail = positional_tail(POSITIONAL['edit_distance_join'], kw, {'comp_op': '<='}) \
+                if pos and 'tokenizer' not in kw else None
+            if tail is not None:
+                PRESENTATION['positional_calls'] += 1
+                return fn(L, R, call['l_key'], call['r_key'], call['l_attr'], call['r_attr'],
+                          call['threshold'], *tail)
             return fn(L, R, call['l_key'], call['r_key'], call['l_attr'], call['r_attr'],
                       call['threshold'], **kw)
         tok = get('tok', make_tokenizer)
         if api == 'overlap_join':
             kw.pop('allow_empty', None)
+        tail = positional_tail(POSITIONAL['overlap_join' if api == 'overlap_join' else 'join'], kw) if pos else None
+        if tail is not None:
+            PRESENTATION['positional_calls'] += 1
+            return fn(L, R, call['l_key'], call['r_key'], call['l_attr'], call['r_attr'],
+                      tok, call['threshold'], *tail)
         return fn(L, R, call['l_key'], call['r_key'], call['l_attr'], call['r_attr'],
                   tok, call['threshold'], **kw)
     if api in ('filter_tables', 'filter_pair', 'filter_candset', 'filter_new'):
@@ -463,10 +553,24 @@ def _exec_call2(ssj, call, objs=None):
                 kw['r_out_attrs'] = kw['l_out_attrs']
             if call['filter']['kind'] == 'OverlapFilter' and 'out_sim_score' in call:
                 kw['out_sim_score'] = call['out_sim_score']
+            if _positional(call):
+                kw2 = dict(kw, show_progress=bool(call.get('show_progress', False)))
+                ovf = call['filter']['kind'] == 'OverlapFilter'
+                tail = positional_tail(POSITIONAL['overlap_filter_tables' if ovf else 'filter_tables'], kw2,
+                                       {'out_sim_score': False})
+                if tail is not None:
+                    PRESENTATION['positional_calls'] += 1
+                    return flt.filter_tables(L, R, call['l_key'], call['r_key'], call['l_attr'],
+                                             call['r_attr'], *tail)
             return flt.filter_tables(L, R, call['l_key'], call['r_key'], call['l_attr'],
                                      call['r_attr'], show_progress=bool(call.get('show_progress', False)),
                                      **kw)
         C = get('candset', make_table)
+        if _positional(call):
+            PRESENTATION['positional_calls'] += 1
+            return flt.filter_candset(C, call['c_l_key'], call['c_r_key'], L, R,
+                                      call['l_key'], call['r_key'], call['l_attr'], call['r_attr'],
+                                      call.get('n_jobs', 1), bool(call.get('show_progress', False)))
         return flt.filter_candset(C, call['c_l_key'], call['c_r_key'], L, R,
                                   call['l_key'], call['r_key'], call['l_attr'], call['r_attr'],
                                   n_jobs=call.get('n_jobs', 1),
@@ -481,6 +585,14 @@ def _exec_call2(ssj, call, objs=None):
                   'out_sim_score', 'n_jobs'):
             if k in call:
                 kw[k] = copy.deepcopy(call[k])
+        if _positional(call):
+            kw2 = dict(kw, comp_op=call.get('comp_op', '>='), show_progress=bool(call.get('show_progress', False)))
+            tail = positional_tail(POSITIONAL['apply_matcher'], kw2)
+            if tail is not None:
+                PRESENTATION['positional_calls'] += 1
+                return ssj.apply_matcher(C, call['c_l_key'], call['c_r_key'], L, R,
+                                         call['l_key'], call['r_key'], call['l_attr'], call['r_attr'],
+                                         tok, sf, call['threshold'], *tail)
         return ssj.apply_matcher(C, call['c_l_key'], call['c_r_key'], L, R,
                                  call['l_key'], call['r_key'], call['l_attr'], call['r_attr'],
                                  tok, sf, call['threshold'], call.get('comp_op', '>='),
@@ -489,15 +601,68 @@ def _exec_call2(ssj, call, objs=None):
         T = get('ltable', make_table)
         if 'profile_attrs' not in call:
             return ssj.profile_table_for_join(T)          # argument omitted: the default applies
-        return ssj.profile_table_for_join(T, call.get('profile_attrs'))
+        pa = call.get('profile_attrs')
+        if pa == '__columns__':
+            pa = T.columns                 # the table's own Index object, as in profile(A, A.columns)
+        return ssj.profile_table_for_join(T, pa)
     if api == 'dataframe_column_to_str':
         T = get('ltable', make_table)
+        if _positional(call):
+            PRESENTATION['positional_calls'] += 1
+            return ssj.dataframe_column_to_str(T, call['col'], call.get('inplace', False),
+                                               call.get('return_col', False))
         return ssj.dataframe_column_to_str(T, call['col'], inplace=call.get('inplace', False),
                                            return_col=call.get('return_col', False))
     if api == 'series_to_str':
         T = get('ltable', make_table)
         return ssj.series_to_str(T[call['col']], inplace=call.get('inplace', False))
     raise ValueError(api)
+
+
+# The published parameter order (documentation of the pinned release).  Callers pass arguments
+# positionally; a reordered signature silently binds them to other parameters.
+POSITIONAL = {
+    'join': ['comp_op', 'allow_empty', 'allow_missing', 'l_out_attrs', 'r_out_attrs', 'l_out_prefix',
+             'r_out_prefix', 'out_sim_score', 'n_jobs', 'show_progress'],
+    'overlap_join': ['comp_op', 'allow_missing', 'l_out_attrs', 'r_out_attrs', 'l_out_prefix',
+                     'r_out_prefix', 'out_sim_score', 'n_jobs', 'show_progress'],
+    'edit_distance_join': ['comp_op', 'allow_missing', 'l_out_attrs', 'r_out_attrs', 'l_out_prefix',
+                           'r_out_prefix', 'out_sim_score', 'n_jobs', 'show_progress', 'tokenizer'],
+    'filter_tables': ['l_out_attrs', 'r_out_attrs', 'l_out_prefix', 'r_out_prefix', 'n_jobs', 'show_progress'],
+    'overlap_filter_tables': ['l_out_attrs', 'r_out_attrs', 'l_out_prefix', 'r_out_prefix', 'out_sim_score',
+                              'n_jobs', 'show_progress'],
+    'filter_candset': ['n_jobs', 'show_progress'],
+    'apply_matcher': ['comp_op', 'allow_missing', 'l_out_attrs', 'r_out_attrs', 'l_out_prefix', 'r_out_prefix',
+                      'out_sim_score', 'n_jobs', 'show_progress'],
+}
+DEFAULTS = {'comp_op': '>=', 'allow_empty': True, 'allow_missing': False, 'l_out_attrs': None,
+            'r_out_attrs': None, 'l_out_prefix': 'l_', 'r_out_prefix': 'r_', 'out_sim_score': True,
+            'n_jobs': 1, 'show_progress': True}
+POSITIONAL_RATE = 5          # percent of the calls that pass their optional arguments positionally
+
+
+def positional_tail(order, kw, defaults=None):
+    """kw -> list of trailing positional arguments in the published order (defaults filled in up to
+    the last argument given), or None when some keyword is not in the published list."""
+    d = dict(DEFAULTS)
+    d.update(defaults or {})
+    if any(k not in order for k in kw):
+        return None
+    last = max([order.index(k) for k in kw] or [-1])
+    return [kw[k] if k in kw else d[k] for k in order[:last + 1]]
+
+
+def _positional(call):
+    if 'positional' in call:
+        return bool(call['positional'])
+    try:
+        h = zlib.crc32(json.dumps(jsonable([call.get('api'), call.get('threshold'), call.get('comp_op'),
+                                             call.get('l_out_attrs'), call.get('n_jobs'),
+                                             call.get('rtable', {}).get('data') if isinstance(call.get('rtable'), dict) else None]),
+                                  sort_keys=True, default=repr).encode())
+    except Exception:
+        return False
+    return (h // 7) % 100 < POSITIONAL_RATE
 
 
 def jsonable(o):
